@@ -51,12 +51,38 @@ use tokio::io::{AsyncRead, AsyncWrite, ReadBuf};
 use super::Prop;
 use crate::common::{block_on_system, CaseResult, Ctx, Rng, Tier};
 
-// ---- constants the oracle's bounds are made of (kept in step with the source by a self-check
-// ---- against the values gen_consts extracts: see `consts_from_source`)
-const MAX_BUFFER_SIZE: usize = 131_072; // h1/decoder.rs
-const LW_BUFFER_SIZE: usize = 1024; // h1/dispatcher.rs
-const PAYLOAD_MAX: usize = 32_768; // h1/payload.rs
-const MAX_PIPELINED: usize = 16; // h1/dispatcher.rs
+// ---- constants the oracle's bounds are made of: re-read on every run from the file
+// ---- `tools/gen_consts.py` extracts from the source (lean/ActixModel/Consts.lean), so that model,
+// ---- theorems and oracle always speak about the constants the code has now; the literals are
+// ---- the pinned commit's values, used only if that file cannot be read
+struct K {
+    max_buffer: usize, // h1/decoder.rs MAX_BUFFER_SIZE
+    lw: usize,         // h1/dispatcher.rs LW_BUFFER_SIZE
+    hw: usize,         // h1/dispatcher.rs HW_BUFFER_SIZE
+    payload_max: usize, // h1/payload.rs MAX_BUFFER_SIZE
+    max_pipelined: usize, // h1/dispatcher.rs MAX_PIPELINED_MESSAGES
+}
+
+fn consts_from_source() -> &'static K {
+    static CELL: std::sync::OnceLock<K> = std::sync::OnceLock::new();
+    CELL.get_or_init(|| {
+        let path = concat!(env!("CARGO_MANIFEST_DIR"), "/../lean/ActixModel/Consts.lean");
+        let txt = std::fs::read_to_string(path).unwrap_or_default();
+        let get = |name: &str, dflt: usize| -> usize {
+            let pat = format!("def {} : Nat := ", name);
+            txt.find(&pat)
+                .and_then(|p| txt[p + pat.len()..].split_whitespace().next().and_then(|v| v.parse().ok()))
+                .unwrap_or(dflt)
+        };
+        K {
+            max_buffer: get("h1MaxBufferSize", 131_072),
+            lw: get("h1LwBufferSize", 1024),
+            hw: get("h1HwBufferSize", 8192),
+            payload_max: get("payloadMaxBufferSize", 32_768),
+            max_pipelined: get("h1MaxPipelined", 16),
+        }
+    })
+}
 const INF: u64 = u64::MAX / 4;
 
 const RULE: &str = "cases = (write-buffer size, read segment size, input stream of sized requests, script of stimuli: \
@@ -861,17 +887,28 @@ fn enc_chunk(stream: bool, c: usize) -> usize {
 }
 
 fn oracle(case: &Case, o: &Outcome) -> Option<(String, String)> {
+    let k = consts_from_source();
+    let (k_maxbuf, k_lw, k_hw, k_pmax, k_pipe) = (k.max_buffer, k.lw, k.hw, k.payload_max, k.max_pipelined);
+    // a bound must be a bound: the constants themselves are capped (16 MiB / 4096 messages)
+    if k_maxbuf > (16 << 20) || k_pmax > (16 << 20) || k_pipe > 4096 {
+        return Some(("constant-is-no-bound".into(), format!("MAX_BUFFER_SIZE {} payload {} pipelined {}", k_maxbuf, k_pmax, k_pipe)));
+    }
     let s = o.sh.borrow();
     // the largest amount one poll_read could append: the scripted segment, or — greedy socket —
     // whatever BytesMut offered
     let max_read = if case.seg > 0 { case.seg.min(s.max_offered.max(1)) } else { s.max_offered };
-    let rmax = MAX_BUFFER_SIZE - 1 + max_read;
-    if s.min_offered != usize::MAX && s.min_offered < LW_BUFFER_SIZE {
-        return Some(("read-offer-below-lw".into(), format!("poll_read was offered {} < {}", s.min_offered, LW_BUFFER_SIZE)));
+    let rmax = k_maxbuf - 1 + max_read;
+    if s.min_offered != usize::MAX && s.min_offered < k_lw {
+        return Some(("read-offer-below-lw".into(), format!("poll_read was offered {} < {}", s.min_offered, k_lw)));
+    }
+    // BytesMut's growth policy (double, or len + HW) keeps the spare capacity offered to one read
+    // below 4 * k_maxbuf + 2 * k_hw while reads stop at k_maxbuf
+    if s.max_offered > 4 * k_maxbuf + 2 * k_hw {
+        return Some(("read-offer-ceiling".into(), format!("poll_read was offered {} bytes", s.max_offered)));
     }
     // (1) request-body bytes read ahead of the handler: what the channel may hold when it pauses
     // (< 32 768) plus the read buffer that was decoded into it, plus one refilled read buffer
-    let b_body = PAYLOAD_MAX - 1 + 2 * rmax;
+    let b_body = k_pmax - 1 + 2 * rmax;
     if s.hwm_body_ahead > b_body {
         return Some((
             "body-read-ahead".into(),
@@ -880,18 +917,18 @@ fn oracle(case: &Case, o: &Outcome) -> Option<(String, String)> {
     }
     // (2) unparsed input + queued pipelined requests beyond the request in service:
     // one full read buffer unparsed, one full read buffer decoded by the poll_request call that
-    // found fewer than MAX_PIPELINED_MESSAGES queued, and the MAX_PIPELINED-1 queued before it
+    // found fewer than MAX_PIPELINED_MESSAGES queued, and the k_pipe-1 queued before it
     let max_req = s
         .lays
         .iter()
         .map(|l| l.head + match l.body {
             Body::None => 0,
-            Body::Len(n) => n.min(PAYLOAD_MAX - 1 + rmax),
-            Body::Chunked(..) => (l.end - l.start - l.head).min(6 * (PAYLOAD_MAX - 1 + rmax)),
+            Body::Len(n) => n.min(k_pmax - 1 + rmax),
+            Body::Chunked(..) => (l.end - l.start - l.head).min(6 * (k_pmax - 1 + rmax)),
         })
         .max()
         .unwrap_or(0);
-    let b_pipe = 2 * rmax + (MAX_PIPELINED - 1) * max_req.min(2 * rmax + PAYLOAD_MAX);
+    let b_pipe = 2 * rmax + (k_pipe - 1) * max_req.min(2 * rmax + k_pmax);
     if s.hwm_pipe_ahead > b_pipe {
         return Some((
             "pipelined-read-ahead".into(),
@@ -901,7 +938,7 @@ fn oracle(case: &Case, o: &Outcome) -> Option<(String, String)> {
     // (3) a head that does not fit is refused with 431 and nothing more is read
     if let Some((k, l)) = s.lays.iter().enumerate().find(|(_, l)| l.unparsable || l.head > rmax) {
         let all_before_done = s.calls >= k && s.resps.len() >= k;
-        let offered_enough = s.avail >= l.start + l.head.min(rmax + 1) && l.head >= MAX_BUFFER_SIZE;
+        let offered_enough = s.avail >= l.start + l.head.min(rmax + 1) && l.head >= k_maxbuf;
         let is_junk_or_big = case.items.get(k).map(|i| !matches!(i, Item::Bad)).unwrap_or(false);
         // the connection may legitimately end before the head is read: peer EOF in the script, or an
         // earlier response that announced `connection: close` (unread request payload)
@@ -1040,6 +1077,8 @@ fn run(line: &str) -> CaseResult {
     let mut res = CaseResult::ok(out);
     {
         let s = o.sh.borrow();
+        let k = consts_from_source();
+        let (k_pmax, k_maxbuf) = (k.payload_max, k.max_buffer);
         res.nontrivial = s.calls > 0 || o.statuses.iter().any(|c| *c == 431 || *c == 400);
         if s.calls > 1 {
             res.tags.push("pipelined".into());
@@ -1050,10 +1089,10 @@ fn run(line: &str) -> CaseResult {
         if o.statuses.contains(&400) {
             res.tags.push("400".into());
         }
-        if s.hwm_body_ahead >= PAYLOAD_MAX {
+        if s.hwm_body_ahead >= k_pmax {
             res.tags.push("payload-paused".into());
         }
-        if s.hwm_pipe_ahead >= MAX_BUFFER_SIZE {
+        if s.hwm_pipe_ahead >= k_maxbuf {
             res.tags.push("readbuf-full".into());
         }
         if s.pulled_total > 0 {
@@ -1083,15 +1122,15 @@ fn run(line: &str) -> CaseResult {
 // ------------------------------------------------------------------------------------------
 
 fn gen(ctx: &Ctx) -> Vec<String> {
+    let k = consts_from_source();
+    let (k_pmax, k_pipe) = (k.payload_max, k.max_pipelined);
     let mut rng = Rng::new(ctx.seed);
     let mut cases: Vec<String> = Vec::new();
-    let segs = [1024usize, 1000, 512, 777, 1];
-    let _ = segs;
     // --- stalled handler, huge bodies
     for _ in 0..ctx.budget(6) {
         let seg = *rng.pick(&[1024usize, 1000, 512, 777]);
         let n = rng.range(200_000, 700_000);
-        let h = rng.range(40, 300);
+        let h = len_base(n) + rng.below(260);
         cases.push(format!("seg={} +l{}:{} S p c1 c3 C re W", seg, h, n));
         let c = *rng.pick(&[1usize, 7, 100, 1000, 4096, 70_000]);
         let m = (rng.range(300_000, 600_000) / (c + 8)).max(2);
@@ -1127,16 +1166,16 @@ fn gen(ctx: &Ctx) -> Vec<String> {
         let d = rng.below(3); // -1, 0, +1
         let a = rng.range(1, 5000);
         let h = len_base(600_000) + rng.below(40);
-        cases.push(format!("+l{}:600000 s{} s{} p S p C re W", h, h, PAYLOAD_MAX + d - 1));
-        cases.push(format!("+l{}:600000 s{} s{} p s{} p c1 S p C re W", h, h, a, PAYLOAD_MAX + d - 1));
+        cases.push(format!("+l{}:600000 s{} s{} p S p C re W", h, h, k_pmax + d - 1));
+        cases.push(format!("+l{}:600000 s{} s{} p s{} p c1 S p C re W", h, h, a, k_pmax + d - 1));
         let c = *rng.pick(&[1usize, 2, 16, 4096]);
         cases.push(format!("seg={} +k{}:{}x{} S c{} p c1 p C re W", rng.pick(&[1024usize, 1000]), CHUNKED_BASE, c, 400_000 / (c + 6), rng.range(1, 40)));
     }
     // --- boundaries: MAX_PIPELINED_MESSAGES - 1 / exactly / + 1 queued when the flood arrives
     for _ in 0..ctx.budget(3) {
         let h = rng.range(18, 30);
-        for q in [MAX_PIPELINED - 1, MAX_PIPELINED, MAX_PIPELINED + 1] {
-            cases.push(format!("+30000*g{} s{} p s{} p S p Re W", h, h, h * q));
+        for q in [k_pipe - 1, k_pipe, k_pipe + 1] {
+            cases.push(format!("+16000*g{} s{} p s{} p S p Re W", h, h, h * q));
         }
     }
     // --- boundaries: write buffer exactly at h1_write_buffer_size after the head / after a chunk
